@@ -340,14 +340,9 @@ def handle (op : String) (args : Array String) : Option String :=
       let O := authOracles []
       let sp := parseSProv env sprov
       let e := env.ev ev.toNat!
-      -- two events of the returned state in one (type, state_key) slot: which of them `AddEvent` leaves in the
-      -- provider depends on the iteration order of the Go map
-      let dupState : Bool := match sp.ids e with
-        | some ids => (match sp.state e ids with
-          | some kvs => !Spec.nodupB (((kvs.map (·.2)).filter (·.stateKey.isSome)).map Spec.tupleOf)
-          | none => false)
-        | none => false
-      if dupState then some "skip:state-with-two-events-in-one-slot(Go map order decides)" else
+      -- (two DIFFERENT events of the returned state in one (type, state_key) slot used to be skipped here — "Go map order
+      -- decides" —: exactly the inputs on which the verdict was not a function of the input.  The specification
+      -- (`Spec.atState`: such a set is no state, refused) and, since the repair, the model answer on them.)
       let m := match verifyAuthRulesAtState O sp e (allow == "1") [] with
         | (.ok, log) => "ok" ++ showLog env log
         | (.idsErr, log) => "err:ids" ++ showLog env log
